@@ -21,6 +21,8 @@ var harnessPkgDirs = map[string]string{
 
 const apiSymbolic = `package PKG
 
+import "time"
+
 // Declarations intercepted by the symbolic executor (no bodies).
 func vU8(name string) byte
 func vU16(name string) uint16
@@ -50,6 +52,7 @@ func vObserveBytes(name string, b []byte)
 func vObserveString(name string, s string)
 func vLog(args ...interface{})
 func vTagMap(x interface{}) map[string]interface{}
+func vTimeAny(name string) time.Time
 `
 
 const apiNative = `package PKG
@@ -61,6 +64,7 @@ import (
 	"reflect"
 	"strconv"
 	"strings"
+	"time"
 )
 
 var vModel = map[string]string{}
@@ -167,6 +171,15 @@ func vObserveBytes(name string, b []byte) {
 }
 func vObserveString(name string, s string) { vObserveBytes(name, []byte(s)) }
 func vLog(args ...interface{})              {}
+func vTimeAny(name string) time.Time {
+	sec := int64(vNumKey(name + ".sec#0"))
+	nsec := int64(vNumKey(name + ".nsec#0"))
+	return time.Unix(sec-62135596800, nsec).UTC()
+}
+func vNumKey(k string) uint64 {
+	v, _ := strconv.ParseUint(vModel[k], 10, 64)
+	return v
+}
 func vTagMap(x interface{}) map[string]interface{} {
 	m := map[string]interface{}{}
 	v := reflect.ValueOf(x)
